@@ -102,7 +102,10 @@ void reindent_line(Chunk *pc, size_t column)
       }
       else
       {
-         pc->SetColumn(max(pc->GetColumn() + col_delta, min_col));
+         // a chunk that sits left of the distance the line moves left must not wrap around
+         const size_t moved = (  col_delta < 0
+                              && pc->GetColumn() < static_cast<size_t>(-col_delta)) ? 0 : pc->GetColumn() + col_delta;
+         pc->SetColumn(max(moved, min_col));
 
          LOG_FMT(LINDLINED, "%s(%d): set column of ", __func__, __LINE__);
 
